@@ -206,6 +206,25 @@ Proof.
   rewrite E. pose proof (symbols_length (index_from 0 cl)) as H. now rewrite index_from_length in H.
 Qed.
 
+(* the tabulation of bitstream-io allocates exactly one continuation table per internal node (every internal node is
+   reached with an empty bit queue from exactly one reader state: the one holding the first depth mod 8 bits of its path),
+   plus the top-level table: as many 256-entry tables as the tree has leaves *)
+Lemma cont_tables_sum f :
+  (cont_tables f 0 + cont_tables f 1 + cont_tables f 2 + cont_tables f 3
+   + cont_tables f 4 + cont_tables f 5 + cont_tables f 6 + cont_tables f 7 = fnodes f)%nat.
+Proof. induction f as [s | z IHz o IHo]; cbn [cont_tables fnodes]; lia. Qed.
+
+Theorem total_tables_leaves f : total_tables f = fleaves f.
+Proof.
+  unfold total_tables. cbn [seq fold_right]. rewrite <- fnodes_leaves, <- (cont_tables_sum f). lia.
+Qed.
+
+Theorem accepted_tree_tables (cl : list N) (t : htree) : new_vec cl = Ok t ->
+  total_tables (ht_tree t) = length (symbols (index_from 0 cl)) /\ (total_tables (ht_tree t) <= length cl)%nat.
+Proof.
+  intros H. destruct (accepted_tree_size cl t H) as (H1 & H2 & _). rewrite total_tables_leaves. auto.
+Qed.
+
 Example accepted_tree_size_sat :
   exists t, new_vec [2; 1; 3; 3] = Ok t /\ fleaves (ht_tree t) = 4%nat /\ fnodes (ht_tree t) = 3%nat.
 Proof. eexists. vm_compute. repeat split. Qed.
